@@ -70,7 +70,8 @@ def dynamicsFactory(
     elif isinstance(agent_cfg.platform, GroundFacilityConfig):
         dynamics = Terrestrial(
             clock.julian_date_start,
-            eci2ecef(agent_cfg.state.toECI(clock.datetime_start), clock.datetime_start),
+            # The configured state is valid at the current epoch (an agent may be added while the scenario runs)
+            eci2ecef(agent_cfg.state.toECI(clock.datetime_epoch), clock.datetime_epoch),
         )
 
     else:
